@@ -43,6 +43,8 @@ TECHNIQUE = 'runtime monitoring: reference-model oracle (list model of label -> 
 
 
 def _label_key(labels, kind, rng):
+    if kind == 'hier2' and labels and rng.random() < 0.15:
+        return K.gen_boolseries_ih(labels, rng)
     for _ in range(50):
         d = K.gen_label(labels, kind, rng)
         if kind.startswith('hier') and d[0] not in _HIER_OK:
@@ -54,11 +56,23 @@ def _label_key(labels, kind, rng):
 
 
 def probes(ctx):
-    from sfmon.gen.frames import SeriesSpec
+    from sfmon.gen.frames import SeriesSpec, FrameSpec
     return [{'kind': 'series', 'spec': SeriesSpec([0, 1, 2, 3], 'auto', 'int64', [10, 11, 12, 13], None),
              'route': 'loc', 'key': ('label', -1)},
             {'kind': 'series', 'spec': SeriesSpec(['a', 'b', 'c', 'd', 'e'], 'str', 'int64', [10, 11, 12, 13, 14], None),
-             'route': 'loc', 'key': ('lslice', 'd', 'b', -1)}]
+             'route': 'loc', 'key': ('lslice', 'd', 'b', -1)},
+            # a Boolean Series key over a product hierarchy (one leaf Index shared by the outer labels) that differs
+            # from the axis only under the first outer label: alignment must still go by label
+            {'kind': 'series', 'spec': SeriesSpec([('a', 2), ('a', 3), ('b', 1), ('b', 2)], 'hier2', 'int64', [10, 11, 12, 13], None),
+             'route': 'loc', 'key': ('boolseries_ih', [(('a', 1), True), (('a', 2), False), (('b', 1), False), (('b', 2), True)],
+                                     'product', (('a', 'b'), (1, 2)))},
+            # one 2-D block, a list key that is not a run although its ends are n-1 apart
+            {'kind': 'frame', 'spec': FrameSpec(['w', 'x', 'y'], ['a', 'b', 'c', 'd', 'e'], 'str', 'str', ['int64'] * 5,
+                                                 [[r * 5 + c for c in range(5)] for r in range(3)], None),
+             'layout': [(0, 5, True)], 'route': 'iloc', 'rowkey': ('null',), 'colkey': ('list', [0, 3, 2])},
+            {'kind': 'frame', 'spec': FrameSpec(['w', 'x', 'y'], ['a', 'b', 'c', 'd', 'e'], 'str', 'str', ['int64'] * 5,
+                                                 [[r * 5 + c for c in range(5)] for r in range(3)], None),
+             'layout': [(0, 5, True)], 'route': 'loc', 'rowkey': ('label', 'x'), 'colkey': ('labels', ['b', 'a', 'd', 'e'])}]
 
 
 def generate(ctx):
@@ -101,9 +115,11 @@ def generate(ctx):
             key = K.gen_positional(len(spec.labels), rng) if route == 'iloc' else _label_key(spec.labels, spec.kind, rng)
             yield {'kind': 'series', 'spec': spec, 'route': route, 'key': key}
         elif r < 0.93:
-            spec = F.random_spec(rng, max_rows=6, max_cols=6, dtypes=_DTYPES, row_kinds=_ROW_KINDS, col_kinds=_COL_KINDS)
+            spec = F.random_spec(rng, max_rows=6, max_cols=6, dtypes=_DTYPES, row_kinds=_ROW_KINDS, col_kinds=_COL_KINDS, homog_p=0.15)
             lays = F.layouts(spec.dtypes)
             lay = rng.choice(lays)
+            if rng.random() < 0.3:
+                lay = min(lays, key=len)  # the coarsest layout (one block when the dtypes allow): fast paths keyed on few blocks
             route = rng.choice(['iloc', 'loc', 'loc', 'getitem'])
             nr, nc = spec.shape
             if route == 'iloc':
@@ -116,7 +132,7 @@ def generate(ctx):
                     ck = None
             else:
                 rk, ck = None, _label_key(spec.cols, spec.col_kind, rng)
-                if ck[0] in ('boolseries', 'iloc'):
+                if ck[0] in ('boolseries', 'boolseries_ih', 'iloc'):
                     ck = ('null',)
             yield {'kind': 'frame', 'spec': spec, 'layout': lay, 'route': route, 'rowkey': rk, 'colkey': ck}
         elif r < 0.96:
@@ -128,7 +144,7 @@ def generate(ctx):
             n0 = rng.randint(0, len(labels) - 1)
             for _ in range(40):
                 key = _label_key(labels, ik, rng)
-                if key[0] in ('iloc', 'boolseries', 'serieskey', 'indexkey') or (key[0] == 'labelarray' and not key[1]):
+                if key[0] in ('iloc', 'boolseries', 'boolseries_ih', 'serieskey', 'indexkey') or (key[0] == 'labelarray' and not key[1]):
                     continue
                 if key[0] == 'lslice' and key[3] is not None and key[3] < 0:
                     continue  # descending label slices: known finding, exercised on static containers
@@ -206,7 +222,7 @@ def _klass(case, rres=None, cres=None, extra=None):
             k[f'{axis}_step_negative'] = key[3] is not None and key[3] < 0
         if key[0] in ('label', 'labels', 'lslice') and labels is not None:
             k[f'{axis}_negative_int_label'] = _has_negative_int(key)
-        if key[0] == 'boolseries':
+        if key[0] in ('boolseries', 'boolseries_ih'):
             k[f'{axis}_bool_labels'] = any(isinstance(l, (bool, np.bool_)) for l, _ in key[1])
     if extra:
         k.update(extra)
